@@ -358,6 +358,21 @@ func runC15(rc *RunCtx) {
 			style = "pipelined"
 		}
 		rc.Probe(fmt.Sprintf("%s|cut=%s|srvcut=%v", style, info.CutClass[ci], sc.CutServerReads))
+		if info.CutClass[ci] != "none" {
+			rc.Fault("request_stream_fragmented:"+info.CutClass[ci], out.Conns[ci].ServerRead > 0)
+		}
+		if sc.Conns[ci].Pipelined {
+			rc.Fault("next_request_sent_early", out.Conns[ci].ServerRead > 0)
+		}
+	}
+	if sc.CutServerReads {
+		rc.Fault("server_reads_cut_short", true)
+	}
+	if sc.TimeoutWithData {
+		rc.Fault("server_read_returns_data_with_deadline_error", true)
+	}
+	if sc.ReadTimeout > 0 {
+		rc.Fault("server_read_timeouts_between_fragments", true)
 	}
 	if len(out.Panics) > 0 || len(twin.Panics) > 0 {
 		ps := append(out.Panics, twin.Panics...)
